@@ -3,20 +3,10 @@
 //!   lace-verif run <ID> <quick|thorough>        master: replays, workers, evidence, verdict
 //!   lace-verif worker <ID> <tier> <seed> <w> <n> <part-file> [journal]
 //!   lace-verif replay <ID> <file>...            strict replay of saved cases
+//!   lace-verif fuzzcase <ID> <tape>            the case a libFuzzer input denotes, as a replay document
 //!   lace-verif list
 
-mod cli;
-mod dbgcheck;
-mod engine;
-mod gen;
-mod lacebox;
-mod proggen;
-mod props;
-mod refasm;
-mod refcmd;
-mod refdbg;
-mod refedit;
-mod refvm;
+use lace_verif::{engine, lacebox, props};
 
 use std::collections::BTreeSet;
 use std::path::{Path, PathBuf};
@@ -86,6 +76,22 @@ fn main() {
         "run" => master(&args[2], parse_tier(&args[3])),
         "worker" => worker(&args[2..]),
         "replay" => replay_cmd(&args[2], &args[3..]),
+        // decode a libFuzzer tape (crash artifact of a coverage-guided target) into a replay document
+        "fuzzseeds" => {
+            let n = lace_verif::fuzzmode::write_seeds(&args[2], Path::new(&args[3]), args[4].parse().unwrap_or(64), args.get(5).and_then(|s| s.parse().ok()).unwrap_or(0));
+            println!("{n}");
+        }
+        "fuzzprobe" => {
+            let (worst, mean) = lace_verif::fuzzmode::probe(&args[2], args.get(3).and_then(|s| s.parse().ok()).unwrap_or(50));
+            println!("{} tape bytes used: worst {worst}, mean {mean}", args[2]);
+        }
+        "fuzzcase" => {
+            let data = std::fs::read(&args[3]).unwrap_or_default();
+            match lace_verif::fuzzmode::tape_to_case(&args[2], &data) {
+                Some(doc) => println!("{}", serde_json::to_string(&doc).unwrap()),
+                None => std::process::exit(3),
+            }
+        }
         other => {
             eprintln!("unknown subcommand {other}");
             std::process::exit(2);
